@@ -616,8 +616,8 @@ func (m *msim) evPropose() {
 				cands = append(cands, rt)
 			}
 		}
-		if len(cands) > 0 && tp.Chance(1, 4) {
-			retry = cands[tp.Intn(len(cands))]
+		if len(cands) > 0 && tp.Chance(1, 3) {
+			retry = cands[tp.PickOldestBiased(len(cands))] // the oldest one is the furthest below the current HW
 		}
 	}
 	for len(batch) < want {
